@@ -129,10 +129,75 @@ theorem c14_broadcast (cs : Classes) (h : Heap) (hw : heapWF cs h = true) (hc : 
   unfold modelMutate refMutate
   rw [(c14_tail_independent cs h hw hc steps hs target).1]
   cases hr : refEval cs h steps target with
-  | error e => cases e <;> rfl
+  | error e =>
+    cases e with
+    | pae e => simp only; cases ignoresMiss kind <;> rfl
+    | other c => rfl
   | ok r =>
     simp only
     rw [applyForEach_eq _ _ _ _ (refEval_nested cs h steps target r hr)]
+
+/-- without the flag `_del_one` is the plain deletion -/
+theorem delOp_false (cs : Classes) (op : String) (h : Heap) (d key : Val) :
+    delOp cs op false h d key = delRaw cs op h d key := by
+  unfold delOp
+  cases delRaw cs op h d key with
+  | ok h' => rfl
+  | error e => cases e <;> rfl
+
+/-- **`ignore_missing=True` is honoured per entry** (Delete through wildcards acts on *every*
+    entry): an entry that lacks the key / index / attribute — the deletion raises a class the
+    `except` clause of `_del_one` names — is left alone, the heap is unchanged, and the loop goes on
+    with the following entries exactly as if that entry had not been there. -/
+theorem c14_ignore_skips_entry (cs : Classes) (op : String) (key : Val) (h : Heap) (d : Val)
+    (rest : List Val) (c : String) (hd : delOp cs op false h d key = .error (.assign c)) :
+    mutateAll (mutOp cs key (.delete op true)) h (d :: rest) =
+      mutateAll (mutOp cs key (.delete op true)) h rest := by
+  rw [delOp_false] at hd
+  simp only [mutateAll, mutOp, delOp, hd, if_true]
+
+/-- … an entry that has it loses it, flag or no flag, and the loop goes on from the new heap -/
+theorem c14_ignore_deletes_entry (cs : Classes) (op : String) (key : Val) (h h' : Heap) (d : Val)
+    (rest : List Val) (hd : delOp cs op false h d key = .ok h') :
+    mutateAll (mutOp cs key (.delete op true)) h (d :: rest) =
+      mutateAll (mutOp cs key (.delete op true)) h' rest := by
+  rw [delOp_false] at hd
+  simp only [mutateAll, mutOp, delOp, hd]
+
+/-- … so under `ignore_missing=True` no PathDeleteError is ever raised, whatever the entries -/
+theorem c14_ignore_never_path_delete_error (cs : Classes) (op : String) (key : Val) :
+    ∀ (ds : List Val) (h : Heap) (c : String),
+      (mutateAll (mutOp cs key (.delete op true)) h ds).2 ≠ some (.assign c) := by
+  intro ds
+  induction ds with
+  | nil => intro h c; simp [mutateAll]
+  | cons d rest ih =>
+    intro h c
+    simp only [mutateAll, mutOp, delOp]
+    cases hr : delRaw cs op h d key with
+    | ok h' => simpa [mutOp, delOp] using ih h' c
+    | error e =>
+      cases e with
+      | assign c' => simpa [mutOp, delOp] using ih h c
+      | unregistered => simp
+      | typeError => simp
+      | raw c' => simp
+
+/-- … and when the parent path itself cannot be reached (no wildcard before the failing segment)
+    the Delete does nothing and returns -/
+theorem c14_ignore_missing_parent (cs : Classes) (h : Heap) (steps : List (String × Val)) (key : Val)
+    (op : String) (target : Val) (e : PyExc) (hp : evalSteps cs h steps target = .error (.pae e)) :
+    modelMutate cs h steps key (.delete op true) target = .mutated h none := by
+  simp [modelMutate, hp, ignoresMiss]
+
+/-- **`missing=` plays no part below a wildcard**: whenever the parent path can be evaluated —
+    in particular whenever it starts with a wildcard, after which failing entries are dropped —
+    Assign with a `missing` factory is Assign without one: every entry is assigned, entries on
+    which the rest of the path fails are left alone and nothing is created in them. -/
+theorem c14_missing_irrelevant (cs : Classes) (h : Heap) (steps : List (String × Val)) (key : Val)
+    (op : String) (v : Val) (target : Val) :
+    modelMutate cs h steps key (.assign op v true) target =
+      modelMutate cs h steps key (.assign op v false) target := rfl
 
 /-- **Checker theorem** — the form in which the property is also evaluated on the
     implementation's observation by the correspondence driver. -/
